@@ -4,12 +4,14 @@ import time
 from vlib.common import finish
 from vlib.bounded import Bounded
 from harness import c13 as driver
+from checks._proof import proof_subobligations
 
 PROP = 'C13'
 
 
 def run():
     t0 = time.time()
+    pv, pu, pe, ppart, passumed = proof_subobligations(PROP, ['contracts.c13_fmt'], ['ak.ppobj'])
     b = Bounded(PROP, 'harness.c13')
     driver.run(b)
     sz = driver.sizes(b.tier)
@@ -33,7 +35,13 @@ def run():
         extra={'families': {'1_single_descriptor': 'exhaustive',
                             '2_descriptor_pairs': 'exhaustive' if sz['pairs'] else 'not run in this tier',
                             '3_random': 'seeded'}})
-    return finish(PROP, 'exploration', b.violations(), [], b.errors, cov,
+    cov.update(ppart)
+    _seen, _viol = set(), []
+    for _v in pv + b.violations():
+        if _v.key not in _seen:
+            _seen.add(_v.key)
+            _viol.append(_v)
+    return finish(PROP, 'exploration', _viol, pu, pe + b.errors, cov, passumed +
                   ["field names avoid the punctuation of the format (, : ; / ! < - ( )), have no leading/trailing "
                    "blanks and are not the special value '*'",
                    "configured min <= max; at least one visible column at every life point",
